@@ -17,6 +17,8 @@ type Config struct {
 	MergeCalls  bool
 	MergeIfs    bool
 	LazyIf      bool
+	Threads     bool
+	MaxPreempt  int
 	Tier        string
 	Seed        uint64
 	Replace     map[string]string
@@ -61,6 +63,7 @@ type Report struct {
 	Samples      []string
 	Forks        int
 	LazyForks    int
+	Schedules    int
 	Infeasible   int
 	Merges       int
 	MergeFails   int
